@@ -185,6 +185,10 @@ def main():
                    "memory image are compared with WasmExec; plus WasmGen programs of profile mem",
            "histories": nhist, "history_length": length, "memcheck_states": mc["distinct"],
            "ops_skipped_undefined": st["ops_skipped_undefined"], "builds": [b["name"] for b in builds], "exhaustive": False}
+    # the repository's own spec-suite corpus for this instruction family: model vs the suite's expectations, w2c2 vs model
+    sys.path.insert(0, os.path.dirname(os.path.abspath(__file__)))
+    import corpus
+    cov.update(corpus.phase(v, "C05", tier))
     return v.finish("model_checking", cov,
                     ["only in-bounds accesses are compared (the property excludes the others); 'effective address without 32-bit "
                      "wrap-around' is therefore not decided (DESIGN.md section 4)",
